@@ -5,6 +5,8 @@ import (
 	"context"
 	"encoding/json"
 	"fmt"
+	"go/ast"
+	"go/token"
 	"io"
 	"math/rand"
 	"regexp"
@@ -26,9 +28,15 @@ import (
 )
 
 type seriesIn struct {
-	ID      int64      `json:"id"`
-	Present [][2]int64 `json:"present"` // closed intervals in which the series has a value
+	ID       int64      `json:"id"`
+	Present  [][2]int64 `json:"present"`            // closed intervals in which the series has a float sample
+	HPresent [][2]int64 `json:"hpresent,omitempty"` // closed intervals in which it has a native-histogram sample
 }
+
+// In the Coq model a stream holds one kind of samples: series id s becomes the two model
+// series 2s (float samples) and 2s+1 (native-histogram samples, value = the histogram's count).
+func floatID(id int64) int64 { return 2 * id }
+func histID(id int64) int64  { return 2*id + 1 }
 
 type queryIn struct {
 	Start int64 `json:"start"`
@@ -100,7 +108,69 @@ func facts(repo string, w io.Writer) error {
 	fmt.Fprintf(w, "Definition min_cache_extent : Z := %d.\n", queryrange.VerifC42MinCacheExtent(mw))
 	fmt.Fprintln(w, "(* pkg/queryfrontend/cache.go: commonQuerySteps, in order *)")
 	fmt.Fprintf(w, "Definition common_query_steps : list Z := %s.\n", common.ZList(queryfrontend.VerifC42CommonQuerySteps()))
+	// the sort.Search predicates of SliceSamples / SliceHistogram: `ts > minTs` drops the sample at minTs
+	qr, err := common.ParseSrc(repo, "internal/cortex/querier/queryrange/query_range.go")
+	if err != nil {
+		return err
+	}
+	for _, fn := range []string{"SliceSamples", "SliceHistogram"} {
+		keeps, err := searchKeepsEqual(qr, fn)
+		if err != nil {
+			return err
+		}
+		fmt.Fprintf(w, "(* internal/cortex/querier/queryrange/query_range.go: %s keeps the sample at minTs iff its sort.Search predicate is `>=` *)\n", fn)
+		fmt.Fprintf(w, "Definition %s_keeps_equal : bool := %s.\n", fn, common.Bool(keeps))
+	}
 	return nil
+}
+
+// searchKeepsEqual reads the comparison of the function literal passed to sort.Search in fn:
+// `<ts> > minTs` (false) or `<ts> >= minTs` (true); anything else is refused.
+func searchKeepsEqual(src *common.SrcFile, fn string) (bool, error) {
+	fd, err := src.FindFunc(fn)
+	if err != nil {
+		return false, err
+	}
+	var op token.Token
+	found := 0
+	ast.Inspect(fd.Body, func(n ast.Node) bool {
+		call, ok := n.(*ast.CallExpr)
+		if !ok || len(call.Args) != 2 {
+			return true
+		}
+		sel, ok := call.Fun.(*ast.SelectorExpr)
+		if !ok || sel.Sel.Name != "Search" {
+			return true
+		}
+		lit, ok := call.Args[1].(*ast.FuncLit)
+		if !ok || len(lit.Body.List) != 1 {
+			return true
+		}
+		ret, ok := lit.Body.List[0].(*ast.ReturnStmt)
+		if !ok || len(ret.Results) != 1 {
+			return true
+		}
+		be, ok := ret.Results[0].(*ast.BinaryExpr)
+		if !ok {
+			return true
+		}
+		if id, ok := be.Y.(*ast.Ident); !ok || id.Name != "minTs" {
+			return true
+		}
+		op = be.Op
+		found++
+		return true
+	})
+	if found != 1 {
+		return false, fmt.Errorf("srcfacts: %s: expected exactly one sort.Search(..., func(i) bool { return <ts> OP minTs })", fn)
+	}
+	switch op {
+	case token.GTR:
+		return false, nil
+	case token.GEQ:
+		return true, nil
+	}
+	return false, fmt.Errorf("srcfacts: %s: sort.Search predicate uses %s, not > or >=", fn, op)
 }
 
 func newCacheMiddleware(c cache.Cache) (queryrange.Middleware, cache.Cache, error) {
@@ -110,7 +180,16 @@ func newCacheMiddleware(c cache.Cache) (queryrange.Middleware, cache.Cache, erro
 		queryrange.PrometheusResponseExtractor{}, nil, queryfrontend.VerifC42ShouldCache, nil)
 }
 
-func val(s, t int64) float64 { return float64(t*16 + s) }
+func val(s, t int64) float64 { return float64(t*16 + s) } // s = model series id (< 16)
+
+func hpresent(s seriesIn, t int64) bool {
+	for _, iv := range s.HPresent {
+		if iv[0] <= t && t <= iv[1] {
+			return true
+		}
+	}
+	return false
+}
 
 func present(s seriesIn, t int64) bool {
 	for _, iv := range s.Present {
@@ -130,15 +209,21 @@ func downstream(series []seriesIn, calls *int) queryrange.Handler {
 		var res []queryrange.SampleStream
 		for _, s := range series {
 			var smp []cortexpb.Sample
+			var hs []queryrange.SampleHistogramPair
 			for t := r.GetStart(); t <= r.GetEnd(); t += r.GetStep() {
 				if present(s, t) {
-					smp = append(smp, cortexpb.Sample{TimestampMs: t, Value: val(s.ID, t)})
+					smp = append(smp, cortexpb.Sample{TimestampMs: t, Value: val(floatID(s.ID), t)})
+				}
+				if hpresent(s, t) {
+					v := val(histID(s.ID), t)
+					hs = append(hs, queryrange.SampleHistogramPair{Timestamp: t, Histogram: queryrange.SampleHistogram{Count: v, Sum: v}})
 				}
 			}
-			if len(smp) > 0 {
+			if len(smp) > 0 || len(hs) > 0 {
 				res = append(res, queryrange.SampleStream{
-					Labels:  []cortexpb.LabelAdapter{{Name: "__name__", Value: "m"}, {Name: "s", Value: sidLabel(s.ID)}},
-					Samples: smp,
+					Labels:     []cortexpb.LabelAdapter{{Name: "__name__", Value: "m"}, {Name: "s", Value: sidLabel(s.ID)}},
+					Samples:    smp,
+					Histograms: hs,
 				})
 			}
 		}
@@ -169,17 +254,29 @@ func matrixOf(resp queryrange.Response) ([]obsStream, error) {
 				id = v
 			}
 		}
-		o := obsStream{ID: id}
+		o := obsStream{ID: floatID(id)}
 		for _, s := range st.Samples {
 			if s.Value != float64(int64(s.Value)) {
 				return nil, fmt.Errorf("non-integral value")
 			}
 			o.Samples = append(o.Samples, [2]int64{s.TimestampMs, int64(s.Value)})
 		}
-		if len(st.Histograms) > 0 {
-			return nil, fmt.Errorf("unexpected histograms")
+		h := obsStream{ID: histID(id)}
+		for _, p := range st.Histograms {
+			if p.Histogram.Count != float64(int64(p.Histogram.Count)) || p.Histogram.Sum != p.Histogram.Count {
+				return nil, fmt.Errorf("histogram sample changed")
+			}
+			h.Samples = append(h.Samples, [2]int64{p.Timestamp, int64(p.Histogram.Count)})
 		}
-		out = append(out, o)
+		if len(o.Samples) == 0 && len(h.Samples) == 0 {
+			return nil, fmt.Errorf("stream without samples")
+		}
+		if len(o.Samples) > 0 {
+			out = append(out, o)
+		}
+		if len(h.Samples) > 0 {
+			out = append(out, h)
+		}
 	}
 	return out, nil
 }
@@ -317,11 +414,14 @@ func run(raw json.RawMessage) (common.Case, error) {
 	}
 	var sd, qs []string
 	for _, s := range in.Series {
-		var iv []string
+		var iv, hv []string
 		for _, p := range s.Present {
 			iv = append(iv, common.Pair(common.Z(p[0]), common.Z(p[1])))
 		}
-		sd = append(sd, common.Pair(common.Z(s.ID), common.List(iv)))
+		for _, p := range s.HPresent {
+			hv = append(hv, common.Pair(common.Z(p[0]), common.Z(p[1])))
+		}
+		sd = append(sd, common.Pair(common.Z(floatID(s.ID)), common.List(iv)), common.Pair(common.Z(histID(s.ID)), common.List(hv)))
 	}
 	for _, q := range in.Queries {
 		qs = append(qs, common.Tuple(common.Z(q.Start), common.Z(q.End), common.Z(q.Step)))
@@ -373,9 +473,51 @@ func genSeries(r *rand.Rand, lo, hi int64, dense bool) []seriesIn {
 				s.Present = append(s.Present, [2]int64{a, b})
 			}
 		}
+		// sample kind: float, native histogram, or both (possibly on different intervals)
+		switch r.Intn(4) {
+		case 0:
+			s.HPresent, s.Present = s.Present, nil
+		case 1:
+			s.HPresent = append([][2]int64(nil), s.Present...)
+			if r.Intn(2) == 0 {
+				a := common.Between(r, lo, hi)
+				s.HPresent = [][2]int64{{a, a + common.Between(r, 0, (hi-lo)/2+1)}}
+			}
+		}
 		out = append(out, s)
 	}
 	return out
+}
+
+// tinyMotif: a cached extent, a tiny extent beyond it (shorter than the minimum cache extent), a
+// long query that ignores the tiny extent but overlaps it by several samples, and queries served
+// from the merged extent.
+func tinyMotif(r *rand.Rand, minExt int64) input {
+	step := common.Pick(r, int64(60000), 30000, 15000, 60000)
+	base := common.Pick(r, int64(0), 3600000, 86400000*2) + common.Between(r, 0, 30)*step
+	n1 := minExt/step + common.Between(r, 2, 8) // first extent: longer than the minimum
+	gap := common.Between(r, 2, 10)             // steps between the first extent and the tiny one
+	tiny := common.Between(r, 1, minExt/step-1) // tiny extent length in steps (< minimum)
+	e1 := base + n1*step
+	t0 := e1 + gap*step
+	t1 := t0 + tiny*step
+	in := input{SplitMs: 86400000 * 4, UseSplit: r.Intn(3) == 0, Note: "tiny-extent"}
+	in.Series = genSeries(r, base, t1, r.Intn(2) == 0)
+	over := common.Between(r, 1, tiny) // the long query ends this many steps inside the tiny extent
+	q3s := base + common.Between(r, 0, n1)*step
+	if q3e := t0 + over*step; r.Intn(4) > 0 && q3e-q3s <= minExt { // usually longer than the minimum extent
+		q3s = q3e - minExt - step
+	}
+	in.Queries = []queryIn{{base, e1, step}, {t0, t1, step}, {q3s, t0 + over*step, step}}
+	for k := r.Intn(3) + 1; k > 0; k-- {
+		a := base + common.Between(r, 0, n1+gap)*step
+		in.Queries = append(in.Queries, queryIn{a, a + common.Between(r, 0, (t1-a)/step)*step, step})
+	}
+	in.Queries = append(in.Queries, queryIn{base, t1, step})
+	if r.Intn(3) == 0 { // sometimes the tiny query comes first
+		in.Queries[0], in.Queries[1] = in.Queries[1], in.Queries[0]
+	}
+	return in
 }
 
 func gen(r *rand.Rand, tier string, n int) []any {
@@ -384,7 +526,13 @@ func gen(r *rand.Rand, tier string, n int) []any {
 	if tier == "thorough" {
 		maxQ = 8
 	}
+	mw, _, _ := newCacheMiddleware(&mapCache{m: map[string][]byte{}})
+	minExt := queryrange.VerifC42MinCacheExtent(mw)
 	for i := 0; i < n; i++ {
+		if r.Intn(4) == 0 {
+			out = append(out, tinyMotif(r, minExt))
+			continue
+		}
 		step := common.Pick(r, int64(1000), 5000, 10000, 15000, 30000, 60000, 7000)
 		split := common.Pick(r, int64(3600000), 600000, 86400000, 1800000)
 		base := common.Pick(r, int64(0), 3600000*5, 86400000*3-600000) + common.Between(r, 0, 40)*step
@@ -423,10 +571,14 @@ func gen(r *rand.Rand, tier string, n int) []any {
 			if r.Intn(4) == 0 {
 				k = r.Intn(len(in.Series))
 			}
+			iv := [][2]int64{{base - 1000000, b}}
 			if r.Intn(4) > 0 {
-				in.Series[k].Present = [][2]int64{{b, base + span + 1000000}}
+				iv = [][2]int64{{b, base + span + 1000000}}
+			}
+			if len(in.Series[k].Present) > 0 || len(in.Series[k].HPresent) == 0 {
+				in.Series[k].Present = iv
 			} else {
-				in.Series[k].Present = [][2]int64{{base - 1000000, b}}
+				in.Series[k].HPresent = iv
 			}
 		}
 		out = append(out, in)
